@@ -170,7 +170,7 @@ class Concretiser:
                 return txt
             return self.fresh('not.a.version.%d')
         if role == 'addr':
-            return self.fresh('addr%d') if self.bool(f_addr_ok(t)) else self.fresh('BADADDR%d')
+            return self.fresh('addr%04d') if self.bool(f_addr_ok(t)) else self.fresh('BADADDR%d')
         if role == 'denom':
             return self.fresh('denom%d')
         if role == 'attr':
@@ -189,7 +189,9 @@ class Concretiser:
             self.string(t, 'uuid')
         self.order_index = None
         order = {r: i for i, r in enumerate(self.ROLE_ORDER)}
-        items.sort(key=lambda nt: order[self.role_of(nt[0])])
+        # within a role, in the byte order the model assumes (key_rank: ordered containers keyed by address iterate in that order);
+        # address texts are numbered with a fixed width, so the order of assignment is their byte order
+        items.sort(key=lambda nt: (order[self.role_of(nt[0])], self.int(f_key_rank(nt[1])) if self.role_of(nt[0]) == 'addr' else 0))
         for n, t in items:
             self.string(t, self.role_of(n))
 
